@@ -86,6 +86,29 @@ fn main() {
                 }
             }
         }
+        Some("time") => {
+            // time <profile> <count>: per-run wall time on one thread, slowest seeds listed
+            let profile = args.get(2).cloned().unwrap_or("smoke".into());
+            let n: u64 = args.get(3).and_then(|s| s.parse().ok()).unwrap_or(100);
+            let mut v = Vec::new();
+            let off: u64 = args.get(4).and_then(|s| s.parse().ok()).unwrap_or(0);
+            for i in 0..n {
+                let i = i + off;
+                let t = std::time::Instant::now();
+                let plan = gen::generate(&profile, i).expect("profile");
+                let tg = t.elapsed();
+                let r = run::run_plan(&plan);
+                v.push((t.elapsed().as_micros(), tg.as_micros(), i, r.entries.len(), r.end_ms));
+            }
+            v.sort();
+            v.reverse();
+            let total: u128 = v.iter().map(|x| x.0).sum();
+            writeln!(out, "total {} ms, mean {} us", total / 1000, total / n as u128).ok();
+            for x in v.iter().take(8) {
+                writeln!(out, "seed {} run {} us (gen {} us) events {} end_ms {}", x.2, x.0, x.1, x.3, x.4).ok();
+            }
+            0
+        }
         Some("digests") => {
             // digests <profile> <count>: event-log digest of `count` runs, computed on
             // VERIF_WORKERS threads, printed in seed order
